@@ -249,9 +249,36 @@ class ParserScenario:
             st.pc.append(c); set_model(st, mp, items + [(k, v)]); out.append((st, none(st)))
         return out
 
+    def s_result_map(self, ex, st, func, args, ty):
+        """Result::map(f) / map_err(f) with f an enum-variant constructor or a closure: the payload of the mapped side goes through f"""
+        from .scen_kernels2 import closure_body, run_closure
+        r = obj(st, args[0]); d = ex.discr(st, r).t; which = 'map_err' if '::map_err::<' in func else 'map'
+        side, dv = ('Err', 1) if which == 'map_err' else ('Ok', 0)
+        out = []
+        if ex.feasible(st, d != dv):
+            s2 = st.clone(); s2.pc.append(d != dv); out.append((s2, obj(s2, args[0])))
+        if ex.feasible(st, d == dv):
+            st.pc.append(d == dv); payload = ex.load(st, r.oid, ('f', side, 0), 'opaque')
+            m = re.search(r'\{(\w+(?:::\w+)*)\}>?$', func)
+            if '{closure@' in func:
+                for s2, v in run_closure(ex, st, closure_body(ex, func), args[1], [payload]):
+                    out.append((s2, ok(s2, v) if side == 'Ok' else err(s2, v)))
+            elif m:
+                from .mirsym import split_path, enum_variant
+                tyname, var = enum_variant(ex.enums, split_path(m.group(1)))
+                if tyname is None: return None
+                v = mk_enum(st, tyname, ex.enums[tyname].index(var), var, (payload,))
+                out.append((st, ok(st, v) if side == 'Ok' else err(st, v)))
+            else: return None
+        return out
+
+    def s_extend_from_slice(self, ex, st, func, args, ty):
+        v = obj(st, args[0]); set_model(st, v, tuple(model(st, v)) + tuple(model(st, args[1]))); return [(st, UNIT)]
+
     def make_exec(self):
         ctx = self.ctx
         summ = [
+            (r'Result::<.*>::map::<|Result::<.*>::map_err::<', self.s_result_map), (r'Vec::<u8>::extend_from_slice$', self.s_extend_from_slice),
             (r' as FromResidual<.*>>::from_residual$', self.s_fromres),
             (r'<std::io::Bytes<R> as Iterator>::next$', self.s_bytes_next),
             (r'<reader::Location as Clone>::clone$|<Location as Clone>::clone$', s_clone),
